@@ -35,6 +35,13 @@ def obligations(tier):
         Ob("C15.append_step_reach", F, "append_step_reach", 60, expect="refute", what="twin: a 2-line text with trailing blank is recorded"),
         Ob("C15.history_reach", F, "history_reach", 120, expect="refute", part="0,1", what="twin: printing run followed by a silent call"),
         Ob("C15.input_fifo", F, "input_fifo", 300, what="FIFO, consume-once, '0' when empty, prompt echoed, per-context record"),
+        Ob("C15.input_handback", F, "input_handback", 200, what="set_input(<the live queue itself>) keeps the remaining values; a list can be queued again after an input function was installed; then FIFO and the default"),
+        Ob("C15.stderr_history", F, "stderr_history", 200, part="0,1", what="programs that also write to standard error: raw output, per-execution records and line view hold exactly the standard-output text"),
+        Ob("C15.stderr_history", F, "stderr_history", 200, part="1,2", what="programs that also write to standard error: raw output, per-execution records and line view hold exactly the standard-output text"),
+        Ob("C15.stderr_history", F, "stderr_history", 200, part="2,0", what="programs that also write to standard error: raw output, per-execution records and line view hold exactly the standard-output text"),
+        Ob("C15.input_reference", F, "input_reference", 200, part="0,1", what="a stored reference to the input function used by a later execution: FIFO values, each execution's record holds exactly its own reads"),
+        Ob("C15.input_reference", F, "input_reference", 200, part="0,2", what="a stored reference to the input function used by a later execution: FIFO values, each execution's record holds exactly its own reads"),
+        Ob("C15.input_reference", F, "input_reference", 200, part="1,0", what="a stored reference to the input function used by a later execution: FIFO values, each execution's record holds exactly its own reads"),
         Ob("C15.input_clear", F, "input_clear", 60, what="clear_input empties the queue"),
     ]
     what2 = "ops (0 run,1 call,2 evaluate,3 clear_output) fixed by the partition, texts symbolic: raw = concat since clear; each context holds its share; silent executions add no line; sys.stdout restored"
